@@ -285,6 +285,21 @@ def helper_forms(ctx: core.Ctx):
             inst = any(c.get("kind") == "TemplateArgument" for c in cppast.kids(hf))
             lst = helpers.setdefault(hf.get("name"), [])
             lst.insert(0, (cppast.params_of(hf), hb)) if inst else lst.append((cppast.params_of(hf), hb))     # instantiations first
+    # static member functions of helper structs (`detail::EditingTest<m>::normalizedInnovation`): the instantiated specialisation's methods first
+
+    def methods(n, in_spec):
+        if not isinstance(n, dict):
+            return
+        k = n.get("kind")
+        if k == "CXXMethodDecl" and n.get("name") and not n["name"].startswith("operator"):
+            hb = cppast.body_of(n)
+            if hb is not None:
+                lst = helpers.setdefault(n["name"], [])
+                lst.insert(0, (cppast.params_of(n), hb)) if in_spec else lst.append((cppast.params_of(n), hb))
+        for c in n.get("inner", []) or []:
+            methods(c, in_spec or k == "ClassTemplateSpecializationDecl")
+    for d in docs:
+        methods(d, False)
 
     def unfold(e, depth=0):
         """the expression a call of a helper stands for, or None"""
